@@ -285,12 +285,11 @@ BEST_FID = ["{b}.point is not None and {b}.point.floatVariables is not None and 
             "inbox(self.evolvent, vecval({b}.point.floatVariables))" % PB,
             "{b}.functionValues is not None and vlen({b}.functionValues) == 1 and {b}.functionValues[0] is not None "
             "and {b}.functionValues[0].value == {b}.GetZ()",
+            # separation (only within one element family: float vectors and reference lists live in different heaps)
             "{b}.functionValues is not %s.bestTrials and {b}.functionValues is not %s._allTrials and "
             "{b}.functionValues is not self.task.perm and {b}.point.floatVariables is not self.evolvent.yValues and "
-            "{b}.point.floatVariables is not self.M and {b}.point.floatVariables is not self.Z and "
-            "{b}.point.floatVariables is not %s._allTrials and {b}.point.floatVariables is not %s.bestTrials and "
-            "{b}.point.floatVariables is not self.task.perm and {b}.functionValues is not self.M and {b}.functionValues is not self.Z"
-            % (SOL, SD, SD, SOL)]
+            "{b}.point.floatVariables is not self.M and {b}.point.floatVariables is not self.Z"
+            % (SOL, SD)]
 G_BEST = ["%s and self.best.GetIndex() == 0" % member("self.best"),
           "self.Z[0] == self.best.GetZ()", "%s.bestTrials[0] is self.best" % SOL] + [c.replace("{b}", "self.best") for c in BEST_FID]
 GROUPS.update({"rq": G_RQ, "val": G_VAL, "best": G_BEST})
@@ -533,7 +532,8 @@ def new_item_post(n):
             "fresh({n}.functionValues[0])".format(n=n),
             "{n}.GetLeft() is None and {n}.GetRight() is None and vlen({n}.functionValues) == 1".format(n=n),
             "vecval({n}.point.floatVariables) == imgv(self.evolvent, {n}.GetX())".format(n=n),
-            "inbox(self.evolvent, vecval({n}.point.floatVariables))".format(n=n)]
+            "inbox(self.evolvent, vecval({n}.point.floatVariables))".format(n=n),
+            "{n}.point.floatVariables is not self.evolvent.yValues".format(n=n)]
 
 
 def iteration_point():
@@ -677,7 +677,7 @@ P_BASE = ["self.method is not None and self.searchData is not None and self.task
           "self.evolvent is not None and self._Process__listeners is not None",
           "self.method.searchData is self.searchData and self.method.task is self.task and "
           "self.method.parameters is self.parameters and self.method.evolvent is self.evolvent",
-          "vlen(self._Process__listeners) >= 0",
+          "vlen(self._Process__listeners) >= 0", "world().gtn >= 0",
           "self._Process__listeners is not self.searchData._allTrials and self._Process__listeners is not "
           "self.searchData.solution.bestTrials and self._Process__listeners is not self.task.perm"]
 M_INIT = ["%s.gn == 0 and %s._allTrials is not None and vlen(%s._allTrials) == 0" % (SD, SD, SD),
@@ -705,9 +705,15 @@ def trace_entries(kind, n0, who, a, b, upto):
             "%s.gtb[%s + tj] is %s)" % (upto, W, n0, kind, W, n0, who, W, n0, a, W, n0, b))
 
 
+LN = "old(vlen(%s))" % LIS                 # the listener list is never changed by the process: bounds and elements of the trace
+LOLD = "old(%s[tj])" % LIS                 # clauses are stated over its entry value (a fixed term, not a select over a store chain)
+LFRAME = ["vlen(%s) == old(vlen(%s))" % (LIS, LIS), "forall(0, old(vlen(%s)), lambda tj: %s[tj] is old(%s[tj]))" % (LIS, LIS, LIS)]
+
+
 def trace_list(kind, n0, who, a, b, upto, guard=None):
+    whoel = LOLD if who == "$old" else "%s[tj]" % who
     cl = ["forall(0, %s, lambda tj: %s.gtkind[%s + tj] == %d)" % (upto, W, n0, kind),
-          "forall(0, %s, lambda tj: %s.gtwho[%s + tj] is %s[tj])" % (upto, W, n0, who),
+          "forall(0, %s, lambda tj: %s.gtwho[%s + tj] is %s)" % (upto, W, n0, whoel),
           "forall(0, %s, lambda tj: %s.gta[%s + tj] is %s)" % (upto, W, n0, a),
           "forall(0, %s, lambda tj: %s.gtb[%s + tj] is %s)" % (upto, W, n0, b)]
     return ["implies(%s, %s)" % (guard, c) for c in cl] if guard else cl
@@ -717,8 +723,8 @@ def listener_loop(kind, a, b, n0=None):
     gb = [] if n0 is None else ["%s = world().gtn" % n0]
     n0 = n0 or "old(%s.gtn)" % W
     return LoopSpec(ghost_before=gb,
-                    invariant=["0 <= gli and gli <= vlen(%s)" % LIS, "%s.gtn == %s + gli" % (W, n0)] +
-                              trace_list(kind, n0, LIS, a, b, "gli") + [
+                    invariant=["0 <= gli and gli <= vlen(%s)" % LIS, "%s.gtn == %s + gli" % (W, n0)] + LFRAME +
+                              trace_list(kind, n0, "$old", a, b, "gli") + [
                                "forall(0, %s, lambda tj: %s.gtkind[tj] == old(%s.gtkind[tj]) and %s.gtwho[tj] is old(%s.gtwho[tj]) "
                                "and %s.gta[tj] is old(%s.gta[tj]) and %s.gtb[tj] is old(%s.gtb[tj]))" % ((n0,) + (W,) * 8)],
                     modifies=[W + ".gtn", W + ".gtkind", W + ".gtwho", W + ".gta", W + ".gtb"],
@@ -746,7 +752,7 @@ def do_global_iteration():
             "allof(_SearchDataItem__z)", "allof(_SearchDataItem__index)", "allof(value)", "allof(curIter)",
             W + ".gtn", W + ".gtkind", W + ".gtwho", W + ".gta", W + ".gtb"] + QMODS
     n0 = "old(%s.gtn)" % W
-    nb = "(vlen(%s) if (old(%s) and number >= 1) else 0)" % (LIS, FIRST)
+    nb = "(%s if (old(%s) and number >= 1) else 0)" % (LN, FIRST)
     return Contract(F_PROC, "Process.DoGlobalIteration", params={"number": "int"}, result="none", modifies=mods,
                     requires=P_BASE + p_state() + ["number >= 0"],
                     ghost_results={"gsaved": "list:SearchDataItem", "gb0": "int"}, ghost_exit=["gsaved = savedNewPoints"],
@@ -762,10 +768,10 @@ def do_global_iteration():
                              # C13: exactly the new trials of this call, in order, are handed to every listener once
                              "fresh(gsaved) and vlen(gsaved) == number",
                              "forall(0, number, lambda ti: gsaved[ti] is %s._allTrials[vlen(%s._allTrials) - number + ti])" % (MSD, MSD),
-                             "%s.gtn == %s + %s + vlen(%s)" % (W, n0, nb, LIS),
+                             "%s.gtn == %s + %s + %s" % (W, n0, nb, LN),
                              "gb0 == %s" % n0,
-                             ] + trace_list(1, "gb0", LIS, MT, "None", "vlen(%s)" % LIS, "old(%s) and number >= 1" % FIRST) + [
-                             trace_entries(2, "%s + %s" % (n0, nb), LIS, "gsaved", MSOL, "vlen(%s)" % LIS)],
+                             ] + LFRAME + trace_list(1, "gb0", "$old", MT, "None", LN, "old(%s) and number >= 1" % FIRST) +
+                            trace_list(2, "(%s + %s)" % (n0, nb), "$old", "gsaved", MSOL, LN),
                     raises={"$any": P_BASE + [
                         # C16: an objective failure leaves the completed trials intact and unrecorded points out
                         "%s.numberOfGlobalTrials - old(%s.numberOfGlobalTrials) == %s.gevals - old(%s.gevals)" % (MSOL, MSOL, MPB, MPB),
@@ -792,9 +798,9 @@ def dgi_loop():
         "fresh(savedNewPoints) and vlen(savedNewPoints) == _ and savedNewPoints is not %s" % LIS,
         "implies(not %s, %s.best.functionValues is not savedNewPoints)" % (FIRST, MT),
         "forall(0, _, lambda ti: savedNewPoints[ti] is %s._allTrials[vlen(%s._allTrials) - _ + ti])" % (MSD, MSD),
-        "%s.gtn == old(%s.gtn) + (vlen(%s) if (old(%s) and _ >= 1) else 0)" % (W, W, LIS, FIRST),
+        "%s.gtn == old(%s.gtn) + (%s if (old(%s) and _ >= 1) else 0)" % (W, W, LN, FIRST),
         "gb0 == old(%s.gtn)" % W,
-        ] + trace_list(1, "gb0", LIS, MT, "None", "vlen(%s)" % LIS, "old(%s) and _ >= 1" % FIRST)
+        ] + LFRAME + trace_list(1, "gb0", "$old", MT, "None", LN, "old(%s) and _ >= 1" % FIRST)
     c = do_global_iteration()
     mods = [m for m in c.modifies] + ["elems(savedNewPoints)", "len_(savedNewPoints)"]
     return LoopSpec(invariant=inv_, modifies=mods, variant="number - _", ghost_before=["gb0 = world().gtn"])
@@ -872,7 +878,7 @@ def console_contracts():
           "world().gp_value"]
     pr = Contract(F_CONSOLE, "ConsoleOutputer.printResult",
                   params={"solved": "bool", "numberOfGlobalTrials": "int", "numberOfLocalTrials": "int", "solvingTime": "real",
-                          "solutionAccuracy": "real", "bestTrialPoint": "ref:object", "bestTrialValue": "real"},
+                          "solutionAccuracy": "real", "bestTrialPoint": "ref:object?", "bestTrialValue": "real"},
                   result="none", modifies=ws, allocates=True,
                   ensures=["world().gp_solved == solved and world().gp_glob == numberOfGlobalTrials and "
                            "world().gp_loc == numberOfLocalTrials and world().gp_time == solvingTime and "
